@@ -7,7 +7,7 @@
   witnesses (F-C06-1 … -8); six of them complete on the model with their repair flag set, F-C06-4 (no
   zero-window probe) has no small repair.
   Liveness is proved — for any amount of data and any configuration with `LiveWF` — on a network that
-  loses nothing and delivers in order within a round (`C06_live_lossless`, a ranking argument over
+  loses nothing and delivers in order with a round trip below `retx_threshold` ticks (`C06_live_lossless`, a ranking argument over
   rounds; Proofs/Live.lean); what separates it from the full statement is listed at `C06_partial`.
 -/
 import TvNetTcp.Proofs.PairStep
@@ -495,7 +495,7 @@ def LiveWF (cfg : Cfg) (mss : Nat) : Bool :=
 
 theorem linv_init (cfg : Cfg) (isnX isnY wndX wndY : Nat) (h1 : 1 ≤ wndX) (h2 : wndX ≤ advWindow cfg.recvCap 0) :
     LInv cfg (Pair.init isnX isnY wndX wndY) :=
-  ⟨rfl, rfl, rfl, rfl, rfl, rfl, wadd_lt _ _, h1, h2, rfl, rfl, rfl, rfl, rfl, rfl, rfl, rfl, rfl⟩
+  ⟨rfl, rfl, rfl, rfl, rfl, rfl, wadd_lt _ _, h1, h2, rfl, rfl, rfl, rfl, rfl, rfl, rfl, rfl, rfl, rfl⟩
 
 /-- **C06 liveness on a network that loses nothing and delivers in order** (unbounded: any amount
     of data, any configuration with `LiveWF`). Two established endpoints, `x` writes `data` (any
@@ -503,8 +503,11 @@ theorem linv_init (cfg : Cfg) (isnX isnY wndX wndY : Nat) (h1 : 1 ≤ wndX) (h2 
     explicit list `liveActs … r …` of `Pair.run` actions, `r` rounds of: the writer offers the next
     `chunk i ≥ 1` bytes of what is left (retrying what `poll_send` refused), both kernels run
     `check_retx` (any threshold / budget) and `segment_all`, every segment `x` emitted in the round
-    is delivered to `y` in order, the reader reads with a buffer of `rd i ≥ recv_buf_cap` bytes,
-    every segment `y` emitted (ACKs, window update) is delivered to `x` in order. The sender's first
+    is delivered to `y` in order, the reader reads with a buffer of `rd i ≥ recv_buf_cap` bytes, the
+    sender's kernel runs `d` more `check_retx` passes with the data still unacknowledged (the round
+    trip in egress ticks: `d = 0`, or `d < retx_threshold` — in the real kernel an ACK leaves with the
+    next egress, `d = 1`), then every segment `y` emitted (ACKs, window update) is delivered to `x`
+    in order. The sender's first
     window is any value in `1 … advertised_window(recv_buf_cap, 0)` (what the committed tree's
     SYN / SYN-ACK carry, `fixSynWindow`).
 
@@ -512,11 +515,11 @@ theorem linv_init (cfg : Cfg) (isnX isnY wndX wndY : Nat) (h1 : 1 ≤ wndX) (h2 
     one per round) every byte has been accepted, acknowledged and **read at the peer, in order**
     (`y.del = data`), nothing is in flight, and neither side is aborted or has left `Established`.
     At every earlier round boundary the invariant `LInv` holds (no abort, window open). -/
-theorem C06_live_lossless (cfg : Cfg) (mss : Nat) (hwf : LiveWF cfg mss = true) (thr max isnX isnY wndX wndY : Nat)
-    (hw1 : 1 ≤ wndX) (hw2 : wndX ≤ advWindow cfg.recvCap 0) (chunk rd : Nat → Nat) (hch : ∀ i, 1 ≤ chunk i)
+theorem C06_live_lossless (cfg : Cfg) (mss : Nat) (hwf : LiveWF cfg mss = true) (thr max d isnX isnY wndX wndY : Nat)
+    (hd : d = 0 ∨ d < thr) (hw1 : 1 ≤ wndX) (hw2 : wndX ≤ advWindow cfg.recvCap 0) (chunk rd : Nat → Nat) (hch : ∀ i, 1 ≤ chunk i)
     (hrd : ∀ i, cfg.recvCap ≤ rd i) (data : List Nat) (r : Nat) (hr : data.length ≤ r) :
     let p0 := Pair.init isnX isnY wndX wndY
-    let p := p0.run cfg mss (liveActs cfg mss thr max chunk rd r 0 p0 data)
+    let p := p0.run cfg mss (liveActs cfg mss thr max d chunk rd r 0 p0 data)
     p.y.del = data ∧ p.x.acc = data ∧ p.x.tcb.sendBuf = [] ∧ p.x.tcb.sndNxt = p.x.tcb.sndUna ∧
       p.x.tcb.abortErr = none ∧ p.y.tcb.abortErr = none ∧
       p.x.tcb.state = .established ∧ p.y.tcb.state = .established ∧ p.y.tcb.recvBuf = [] := by
@@ -524,13 +527,13 @@ theorem C06_live_lossless (cfg : Cfg) (mss : Nat) (hwf : LiveWF cfg mss = true) 
   unfold LiveWF at hwf
   simp only [Bool.and_eq_true, decide_eq_true_eq] at hwf
   obtain ⟨⟨⟨hfw, hm⟩, hsc⟩, hrc⟩ := hwf
-  have hrun : p = (liveRun cfg mss thr max chunk rd r 0 p0 data).1 := run_liveActs cfg mss thr max chunk rd r 0 p0 data
-  obtain ⟨hinv, hg, ha, _, hlen⟩ := liveRun_ok cfg mss thr max chunk rd hm hsc hrc hfw hch hrd data r 0 p0 data
+  have hrun : p = (liveRun cfg mss thr max d chunk rd r 0 p0 data).1 := run_liveActs cfg mss thr max d chunk rd r 0 p0 data
+  obtain ⟨hinv, hg, ha, _, hlen⟩ := liveRun_ok cfg mss thr max d chunk rd hm hd hsc hrc hfw hch hrd data r 0 p0 data
     (linv_init cfg isnX isnY wndX wndY hw1 hw2) rfl rfl
   rw [← hrun] at hinv hg ha hlen
   have h0 : p0.x.tcb.sendBuf.length = 0 := rfl
   have hsb : p.x.tcb.sendBuf = [] := List.eq_nil_of_length_eq_zero (by omega)
-  have hrest : (liveRun cfg mss thr max chunk rd r 0 p0 data).2 = [] := List.eq_nil_of_length_eq_zero (by omega)
+  have hrest : (liveRun cfg mss thr max d chunk rd r 0 p0 data).2 = [] := List.eq_nil_of_length_eq_zero (by omega)
   rw [hsb, hrest, List.append_nil, List.append_nil] at hg
   rw [hsb, List.append_nil, hg] at ha
   refine ⟨hg, ha, hsb, hinv.xfl, ?_, ?_, hinv.xst, hinv.yst, hinv.yrb⟩
@@ -539,10 +542,10 @@ theorem C06_live_lossless (cfg : Cfg) (mss : Nat) (hwf : LiveWF cfg mss = true) 
 
 /-- On the committed tree the handshake itself provides the first window (`synWindow`). -/
 theorem C06_live_lossless_committed (cfg : Cfg) (mss : Nat) (hwf : LiveWF cfg mss = true) (hsyn : cfg.fixSynWindow = true)
-    (thr max isnX isnY : Nat) (chunk rd : Nat → Nat) (hch : ∀ i, 1 ≤ chunk i) (hrd : ∀ i, cfg.recvCap ≤ rd i)
-    (data : List Nat) :
+    (thr max d isnX isnY : Nat) (hd : d = 0 ∨ d < thr) (chunk rd : Nat → Nat) (hch : ∀ i, 1 ≤ chunk i)
+    (hrd : ∀ i, cfg.recvCap ≤ rd i) (data : List Nat) :
     let p0 := Pair.init isnX isnY (synWindow cfg) (synWindow cfg)
-    let p := p0.run cfg mss (liveActs cfg mss thr max chunk rd data.length 0 p0 data)
+    let p := p0.run cfg mss (liveActs cfg mss thr max d chunk rd data.length 0 p0 data)
     p.y.del = data ∧ p.x.tcb.sendBuf = [] ∧ p.x.tcb.abortErr = none ∧ p.y.tcb.abortErr = none := by
   intro p0 p
   have hsw : synWindow cfg = advWindow cfg.recvCap 0 := by unfold synWindow; rw [hsyn]; rfl
@@ -551,21 +554,21 @@ theorem C06_live_lossless_committed (cfg : Cfg) (mss : Nat) (hwf : LiveWF cfg ms
     simp only [Bool.and_eq_true, decide_eq_true_eq] at hwf
     exact hwf.2
   have h1 : 1 ≤ synWindow cfg := by rw [hsw]; unfold advWindow; omega
-  have := C06_live_lossless cfg mss hwf thr max isnX isnY (synWindow cfg) (synWindow cfg) h1 (by rw [hsw]; exact Nat.le_refl _)
+  have := C06_live_lossless cfg mss hwf thr max d isnX isnY (synWindow cfg) (synWindow cfg) hd h1 (by rw [hsw]; exact Nat.le_refl _)
     chunk rd hch hrd data data.length (Nat.le_refl _)
   exact ⟨this.1, this.2.2.1, this.2.2.2.2.1, this.2.2.2.2.2.1⟩
 
 set_option maxRecDepth 100000 in
 /-- Non-vacuity: the committed tree with a 4-byte receive buffer, a 3-byte send buffer, MSS 2 and
-    `retx_threshold = 1`; 11 bytes offered 5 at a time. The hypotheses hold, the schedule is a real
-    one (84 actions: 7 data segments, 11 ACKs / window updates delivered), and the bytes arrive. -/
+    `retx_threshold = 2`, ACKs one tick late (`d = 1`); 11 bytes offered 5 at a time. The hypotheses hold, the schedule is a real
+    one (95 actions: 7 data segments, 11 ACKs / window updates delivered), and the bytes arrive. -/
 example :
-    let cfg : Cfg := { cfgCommitted with recvCap := 4, sendCap := 3, retxThreshold := 1 }
+    let cfg : Cfg := { cfgCommitted with recvCap := 4, sendCap := 3, retxThreshold := 2 }
     let data := [1, 2, 3, 4, 5, 6, 7, 8, 9, 10, 11]
     let p0 := Pair.init 100 200 (synWindow cfg) (synWindow cfg)
-    let acts := liveActs cfg 2 1 5 (fun _ => 5) (fun _ => 4) data.length 0 p0 data
+    let acts := liveActs cfg 2 2 5 1 (fun _ => 5) (fun _ => 4) data.length 0 p0 data
     LiveWF cfg 2 = true ∧ cfg.fixSynWindow = true ∧ (p0.run cfg 2 acts).y.del = data ∧
-      (p0.run cfg 2 acts).x.out.length = 7 ∧ (p0.run cfg 2 acts).y.out.length = 11 ∧ acts.length = 84 := by
+      (p0.run cfg 2 acts).x.out.length = 7 ∧ (p0.run cfg 2 acts).y.out.length = 11 ∧ acts.length = 95 := by
   decide
 
 /-- **What is proved of liveness** (`C06_partial`): the local progress facts every schedule relies
@@ -578,8 +581,8 @@ example :
     for the full statement `C06_Live_Statement`, which cannot hold on the faithful model (witnesses
     above) nor on the committed tree (F-C06-4, F-C06-8 open): (1) any loss, duplication or
     reordering — the ranking argument is for a wire that delivers every segment of a round, in
-    order, before the sender's next retransmit tick (so `check_retx` never fires; with losses below
-    the budget the argument needs SND.MAX, see F-C06-8); (2) readers that do not drain
+    order, within fewer than `retx_threshold` egress ticks (so `check_retx` only counts, never
+    rewinds; with losses below the budget the argument needs SND.MAX, see F-C06-8); (2) readers that do not drain
     (`rd i < recv_buf_cap`: zero-window episodes, F-C06-4 territory); (3) data in both directions at
     once, FIN / half-close, and the handshake itself (the theorem starts from two `Established`
     TCBs; `C13.connect_ok_iff_listener_room` covers the lossless handshake); (4) the lift from the
